@@ -980,6 +980,9 @@ fn c01_classes(tx: &Transaction, pre: &Ledger, seen: &mut HashSet<SaitoUTXOSetKe
     }
     v.sort();
     v.dedup();
+    // a duplicated input inside a transaction that is otherwise impeccable (plain Normal type, signature binds
+    // every input, every input exists) is a different failure from the listed one (which needs a transaction whose
+    // own verdict is false): give it its own class so that it is never covered by the listed finding
     v
 }
 
@@ -1312,7 +1315,21 @@ pub async fn blk_case(out: &mut Out, w: &mut World, tally: &mut Tally, gt: bool,
         let mut classes = vec![];
         for t in &g.transactions {
             let legit = legit_system_tx(t, &g, &w.scn);
-            classes.extend(c01_classes(t, &w.pre, &mut seen, legit, g.id.saturating_sub(w.scn.gp)));
+            let mut cs = c01_classes(t, &w.pre, &mut seen, legit, g.id.saturating_sub(w.scn.gp));
+            // the listed duplicated-input finding needs a transaction whose OWN verdict is false (the sweep's map
+            // covers verdict-true transactions): a duplicated input in a verdict-true transaction is a different failure
+            if cs.iter().any(|c| c == "accepts-duplicated-input") {
+                let bc = w.node.bc.read().await;
+                let verdict = crate::common::guarded(|| t.validate(&bc.utxoset, &bc, true)).unwrap_or(false);
+                if verdict {
+                    for c in cs.iter_mut() {
+                        if c == "accepts-duplicated-input" {
+                            *c = "accepts-duplicated-input/in-transaction-whose-own-verdict-is-true".to_string();
+                        }
+                    }
+                }
+            }
+            classes.extend(cs);
         }
         classes.sort();
         classes.dedup();
